@@ -31,12 +31,14 @@ def close(a: Fraction, b: Fraction, rtol: Fraction = RTOL) -> bool:
     return abs(a - b) <= rtol * max(abs(a), abs(b))
 
 
-def oracle(ctx: Ctx, r: Fraction, rho: Fraction, L: int, taus: List[float]) -> None:
+def oracle(ctx: Ctx, r: Fraction, rho: Fraction, L: int, taus: List[float], query_order: Any = None) -> None:
     """Property clauses evaluated on the implementation's own taus.
 
     Small stacks are evaluated in exact rational arithmetic (Fraction of the float taus);
     deep ones in float64 with compensated sums (error << the 1e-9 tolerance)."""
     case = {"residual_mult": str(r), "residual_attn_ratio": str(rho), "layers": L}
+    if query_order is not None:   # the order in which the rule object was asked for its taus (replay)
+        case["query_order"] = query_order
     exact = L <= 4
     one = Fraction(1) if exact else 1.0
     t2 = [Fraction(t) ** 2 if exact else t * t for t in taus]
@@ -101,9 +103,38 @@ def run(ctx: Ctx) -> None:
         if (r, rho) not in rules:
             rules[(r, rho)] = transformer_residual_scaling_rule(float(r), float(rho))
         rule = rules[(r, rho)]
-        taus = [rule(i, 2 * L) for i in range(2 * L)]
+        # The rule is a plain callable (index, layers) -> tau: a caller may ask for the branches in
+        # any order (all attention taus first, back to front, some twice).  The order is seeded.
+        n = 2 * L
+        mode = ctx.rng.choice(["seq", "seq", "rev", "even-odd", "odd-even", "perm", "skip"])
+        if mode == "seq":
+            order = list(range(n))
+        elif mode == "rev":
+            order = list(range(n - 1, -1, -1))
+        elif mode == "even-odd":
+            order = list(range(0, n, 2)) + list(range(1, n, 2))
+        elif mode == "odd-even":
+            order = list(range(1, n, 2)) + list(range(0, n, 2))
+        elif mode == "perm":
+            order = list(range(n))
+            ctx.rng.shuffle(order)
+        else:  # ascending with a gap, then the skipped ones
+            step = ctx.rng.choice([2, 3, 5])
+            first = list(range(0, n, step))
+            order = first + [i for i in range(n) if i % step]
+        ctx.bump(f"query-order:{mode}")
+        taus = [0.0] * n
+        for i in order:
+            taus[i] = rule(i, n)
+        for i in ctx.rng.sample(range(n), min(n, 3)):   # asked again: same answer
+            again = rule(i, n)
+            if again != taus[i]:
+                ctx.violation("C07:rule-stateful", "the rule returns a different tau for the same (index, layers) "
+                              "when asked again", {"residual_mult": str(r), "residual_attn_ratio": str(rho),
+                                                   "layers": n, "index": i, "query_order": mode,
+                                                   "first": taus[i], "again": again})
         impl.append(taus)
-        oracle(ctx, r, rho, L, taus)
+        oracle(ctx, r, rho, L, taus, {"mode": mode, "indices": order if n <= 64 else order[:64] + ["..."]})
         for i in range(2 * L):
             ctx.count({"r": str(r), "rho": str(rho), "L": L, "i": i})
         ctx.bump(f"L<={'8' if L <= 8 else '64' if L <= 64 else '256'}")
